@@ -582,6 +582,29 @@ Theorem C01_fresh_endpoints_interoperate_across_loss : forall gs gr cn ca l,
 Proof. exact fresh_endpoints_interoperate_across_loss. Qed.
 Print Assumptions C01_fresh_endpoints_interoperate_across_loss.
 
+(* ... and with the SERVER as the publishing side after the same handshake (it retransmits in the call that sends its CONNACK) *)
+Theorem C01_fresh_endpoints_interoperate_across_loss_server_publishes : forall gc gsv cn ca l,
+  1 <= g_idmax gc -> 1 <= g_idmax gsv -> role_client_ok gc = true -> role_server_ok gsv = true -> 2 + g_idw gsv <= MQTT_PACKET_SIZE_NO_LIMIT ->
+  k_type cn = T_CONNECT -> k_ver cn = V311 -> k_flag cn = false ->
+  k_type ca = T_CONNACK -> k_ver ca = V311 -> k_rc ca = 0 ->
+  Forall good_actS l ->
+  let A0 := set_auto_pub (conn_new gc V311) true in
+  let B0 := set_auto_pub (conn_new gsv V311) true in
+  exists A1 e1 B1 e2 B2 e3 A2 e4 s1 s2,
+    step gc A0 (OSend cn) = Ok (A1, e1, []) /\ sends e1 = [cn] /\
+    deliver gsv B0 cn = Ok (B1, e2) /\ notifies e2 = [cn] /\
+    step gsv B1 (OSend ca) = Ok (B2, e3, []) /\ sends e3 = [ca] /\
+    deliver gc A1 ca = Ok (A2, e4) /\ notifies e4 = [ca] /\
+    errors e1 = [] /\ errors e2 = [] /\ errors e3 = [] /\ errors e4 = [] /\
+    (* the SERVER is the publishing side from here on *)
+    run_schedS gsv gc (mkSys B2 A2 [] [] [] []) l = Some s1 /\
+    run_schedS gsv gc s1 (drainS (measure s1)) = Some s2 /\
+    qsr s2 = [] /\ qrs s2 = [] /\ c_store (cs s2) = [] /\
+    map undup (filter q2 (delivered s2)) = map undup (filter q2 (published s1)) /\
+    (forall p, In p (published s1) -> k_type p = T_PUBLISH -> k_qos p = 1 -> In (undup p) (map undup (delivered s2))).
+Proof. exact fresh_endpoints_interoperate_across_loss_server_publishes. Qed.
+Print Assumptions C01_fresh_endpoints_interoperate_across_loss_server_publishes.
+
 (* the premises of the pair theorems are met by two endpoints after an ordinary handshake *)
 Example C01_pair_nonvacuous :
   let gs := mkCfg RClient 65535 2 in
